@@ -316,6 +316,17 @@ def r6b_exhaustive(ctx, roles=("yield:", "undeclared-use:", "locals:"), rule="R6
                 r.review(key, REVIEWED[key])
             else:
                 r.violate(key, "%s never descends into %s: code nested there is invisible to it" % (f.id.split("::")[-1], _short(u)))
+    # ... and does NOT descend into the bodies of nested function / class definitions: they are scopes of their own (a `yield`
+    # there belongs to the nested generator; parameters and locals of a nested helper are not names of the enclosing function)
+    scope = [u for u in stmt_list_universe(crate) if u[0].split("::")[-1] in SCOPE_NODES]
+    for role, f in sorted(vis.items()):
+        d = descent(crate, f, scope, ctx.callgraph())
+        key = "R6b|%s|descends into a nested scope" % f.id
+        if d:
+            r.violate(key, "%s descends into %s: what it finds there belongs to the nested scope, not to the function it is "
+                           "analysing" % (f.id.split("::")[-1], sorted(_short(u) for u in d)))
+        else:
+            r.ok()
     r.floor("statement-list universe", len(uni), 15)
     r.floor("body visitors", len(vis), 2)
     return r
